@@ -475,11 +475,48 @@ def fixture_directories():
                "domain_path": dpath}
 
 
+W_DOMAIN = ("(define (domain wd) (:requirements %s)\n(:types agent - object t - object truck - agent)\n"
+            "(:predicates (p ?x - t) %s)\n(:functions (f ?x - t))\n"
+            "(:action a :parameters (?ag - agent ?x - t) :precondition (and (p ?x) (>= (f ?x) 1)) :effect (and (not (p ?x))))\n%s)\n")
+W_PROBLEM = "(define (problem wq) (:domain wd)\n(:objects %s)\n(:init (p t1) (= (f t1) 3) %s)\n(:goal (and %s)))\n"
+
+
+def witness_directories():
+    """hand-made directories: the recorded witnesses of the repaired findings (D27, D18) and the inputs of the false
+    alarms that were removed from the check (differing :requirements / names); they must pass under every order"""
+    others = other_domains(random.Random(5))
+    base = {"kind": "witness", "original_domain": None, "original_problem": None, "conflict": None, "pconflict": None,
+            "others": others}
+    da = W_DOMAIN % (":typing", "(q ?x - t)", "(:action b :parameters (?ag - truck) :precondition (and ) :effect (and (q t0)))")
+    db = W_DOMAIN % ("", "(:private (r ?x - t ?y - truck))", "")
+    dc = W_DOMAIN % (":typing :numeric-fluents", "", "")
+    da = da.replace("(:predicates", "(:constants t0 - t)\n(:predicates")
+    whole_d = W_DOMAIN % (":typing :numeric-fluents", "(q ?x - t) (r ?x - t ?y - truck)",
+                          "(:action b :parameters (?ag - truck) :precondition (and ) :effect (and (q t0)))")
+    whole_d = whole_d.replace("(:predicates", "(:constants t0 - t)\n(:predicates")
+    # D27: the same numeric goal in two files, and twice inside one file
+    pa = W_PROBLEM % ("t1 - t k1 - truck", "(q t1)", "(p t1) (>= (f t1) 2) (>= (f t1) 2)")
+    pb = W_PROBLEM % ("t1 t2 - t", "(= (f t2) 0.5)", "(>= (f t1) 2) (p t1) (< (f t2) 7.25)")
+    pc = W_PROBLEM % ("t2 - t t1 - t", "(q t1) (= (f t2) 0.5)", "(< (f t2) 7.25) (>= (f t1) 2)")
+    whole_p = W_PROBLEM % ("t1 t2 - t k1 - truck", "(q t1) (= (f t2) 0.5)", "(p t1) (>= (f t1) 2) (< (f t2) 7.25)")
+    yield dict(base, case="w_d27_reqs", n=3,
+               dfiles={"domain-a.pddl": da, "domain-b.pddl": db, "domain-c.pddl": dc},
+               pfiles={"problem-a.pddl": pa, "problem-b.pddl": pb, "problem-c.pddl": pc},
+               original_domain=whole_d, original_problem=whole_p)
+    # different domain names (a problem names its domain, so no problems here) / different problem names
+    yield dict(base, case="w_dnames", n=2, pfiles={},
+               dfiles={"domain-x.pddl": da.replace("domain wd", "domain first"), "domain-y.pddl": db.replace("domain wd", "domain second")})
+    yield dict(base, case="w_pnames", n=2,
+               dfiles={"domain-x.pddl": da, "domain-y.pddl": db},
+               pfiles={"problem-x.pddl": pa.replace("problem wq", "problem one"), "problem-y.pddl": pb.replace("problem wq", "problem two")})
+
+
 def build_jobs(rng, tier):
     jobs = []
-    for d in list(fixture_directories()) + list(generated_directories(rng, tier)):
+    for d in list(witness_directories()) + list(fixture_directories()) + list(generated_directories(rng, tier)):
         dnames, pnames = sorted(d["dfiles"]), sorted(d["pfiles"])
-        orders = orders_for(rng, dnames if dnames else pnames, "quick" if d["kind"] == "fixture" else tier)
+        orders = orders_for(rng, dnames if dnames else pnames,
+                            {"fixture": "quick", "witness": "thorough"}.get(d["kind"], tier))
         for oi, order in enumerate(orders):
             job = {"op": "c17.combine", "case": "%s_o%d" % (d["case"], oi), "dir": d["case"], "kind": d["kind"],
                    "dfiles": d["dfiles"], "pfiles": d["pfiles"], "dummy": rng.random() < 0.35,
@@ -544,9 +581,10 @@ def dcase_lit(job, res):
 
 
 def pcase_lit(job, res):
-    return "(CP (PC %s %s %s %s))" % (
+    return "(CP (PC %s %s %s %s %s))" % (
         clist(obs_lit(r, problem_lit) for r in res["pfiles"]), obs_lit(res["pobs"], problem_lit),
         cbool("ok" not in res["pobs"] or bool(res.get("prt_same"))),
+        cstrs(k for k, _ in res["default_after_problems"]["fresh"]),
         opt_lit(res.get("pexpect"), problem_lit))
 
 
@@ -606,14 +644,13 @@ def run(args):
             out = []
             d = res.get("dobs", {}).get("ok")
             if d is not None:
-                out.append({"name": d["name"], "reqs": sorted(set(d["reqs"])),
-                            **{s: sorted(tuple(x) for x in d[s] if not x[0].startswith("dummy-"))
-                               for s in ("types", "consts", "preds", "funcs", "acts")}})
+                out.append({s: sorted(tuple(x) for x in d[s] if not x[0].startswith("dummy-"))
+                            for s in ("types", "consts", "preds", "funcs", "acts")})
             else:
                 out.append(None)
             q = res.get("pobs", {}).get("ok")
             if q is not None:
-                out.append({"name": q["name"], "objs": sorted(map(tuple, q["objs"])),
+                out.append({"objs": sorted(map(tuple, q["objs"])),
                             "facts": sorted(f for _, fs in q["facts"] for f in fs),
                             "fluents": sorted(map(tuple, q["fluents"])), "goals": sorted(q["goals"]),
                             "ngoals": sorted(q["ngoals"])})
